@@ -89,7 +89,7 @@ func genC14(seed uint64) c14Params {
 }
 
 func c14Target(name string, outs []string, proc string) *core.BuildTarget {
-	t := core.NewBuildTarget(core.BuildLabel{Subrepo: proc, PackageName: "pkg", Name: name})
+	t := core.NewBuildTarget(core.BuildLabel{Subrepo: proc, PackageName: vcPkgName, Name: name})
 	for _, o := range outs {
 		t.AddOutput(o)
 	}
@@ -170,8 +170,8 @@ func scenarioC14(t *testing.T, root string, seed uint64, replay *c14Params, tier
 		}
 		// a few things that are not entries
 		os.WriteFile(filepath.Join(env.cacheDir, "README"), []byte("not an entry"), 0o644)
-		os.MkdirAll(filepath.Join(env.cacheDir, "pkg", "t0", "not-a-key"), 0o775)
-		os.WriteFile(filepath.Join(env.cacheDir, "pkg", "t0", "not-a-key", "f"), []byte("junk"), 0o644)
+		os.MkdirAll(filepath.Join(env.cacheDir, vcPkgName, "t0", "not-a-key"), 0o775)
+		os.WriteFile(filepath.Join(env.cacheDir, vcPkgName, "t0", "not-a-key", "f"), []byte("junk"), 0o644)
 
 		c := env.newCache() // the current process
 		for i := range p.NewOnes {
